@@ -173,3 +173,77 @@ Proof.
   intros rf T f env d use_env H. unfold load_file. destruct use_env; [|reflexivity].
   destruct expand_doc_no_dollar as [E _]. rewrite E; auto.
 Qed.
+
+(* ------------------------------------------------------------------ a history of loads of (possibly different)
+   configuration types in one process.  [keep = true] is seeded change C17-10: conf keeps field infos between
+   loads ([kept]: the info each key of a struct ended with, standing for the per-type table) and starts the info
+   of a NAMED field from the kept one — which an earlier merge with an embedded struct's section has extended in
+   place.  The code: [keep = false], nothing a load builds outlives it. *)
+Fixpoint add_all_infos (acc : finfo) (l : list (string * finfo)) : option finfo :=
+  match l with
+  | [] => Some acc
+  | (k, v) :: r => obnd (add_or_merge acc k v) (fun acc' => add_all_infos acc' r)
+  end.
+
+Fixpoint info_top (kept : list (string * finfo)) (fs : fields) (acc : finfo) : option finfo :=
+  match fs with
+  | FNil => Some acc
+  | FCons key _ t rest =>
+    obnd (match lookup (lower key) kept with Some k => Some k | None => info_named t end)
+         (fun fi => obnd (add_or_merge acc (lower key) fi) (fun acc' => info_top kept rest acc'))
+  | FEmbed _ _ inner rest =>
+    obnd (info_fields inner fi_empty)
+         (fun si => obnd (add_all_infos acc (fi_children si)) (fun acc' => info_top kept rest acc'))
+  end.
+
+Definition conf_load_info (oi : option finfo) (T : fields) (j : option jv) : result gval :=
+  match oi with
+  | None => Err ETag
+  | Some info =>
+    match j with
+    | Some (JObj o) => unmarshal fixed ccfg (lower_fields T) (Some (JObj (lc_obj info o)))
+    | _ => Err EDoc
+    end
+  end.
+
+Fixpoint conf_history (keep : bool) (rf : fmt -> string -> string) (kept : list (string * finfo))
+         (h : list (fields * fmt * doc)) : list (result gval) :=
+  match h with
+  | [] => []
+  | (T, f, d) :: rest =>
+    let oi := info_top (if keep then kept else []) T fi_empty in
+    conf_load_info oi T (Some (shape rf f d))
+    :: conf_history keep rf (match oi with Some i => fi_children i ++ kept | None => kept end) rest
+  end.
+
+Lemma info_top_nil : forall fs acc, info_top [] fs acc = info_fields fs acc.
+Proof.
+  induction fs as [|key o t rest IH|opt ptr inner IHi rest IH]; intro acc.
+  - reflexivity.
+  - cbn [info_top lookup]. unfold info_fields, info_named in *. cbn [info_fields_v].
+    destruct (info_named_v true t) as [fi|]; [|reflexivity]. cbn [obnd].
+    destruct (add_or_merge acc (lower key) fi) as [acc'|]; [|reflexivity]. cbn [obnd]. apply IH.
+  - cbn [info_top]. unfold info_fields in *. cbn [info_fields_v].
+    destruct (info_fields_v true inner fi_empty) as [si|]; [|reflexivity]. cbn [obnd].
+    assert (E : forall l a,
+               (fix add_all (acc0 : finfo) (l0 : list (string * finfo)) {struct l0} : option finfo :=
+                  match l0 with
+                  | [] => Some acc0
+                  | (k, v) :: r => obnd (add_or_merge acc0 k v) (fun acc' => add_all acc' r)
+                  end) a l = add_all_infos a l).
+    { induction l as [|[k v] r IHl]; intro a; [reflexivity|]. cbn [add_all_infos].
+      destruct (add_or_merge a k v); [|reflexivity]. cbn [obnd]. apply IHl. }
+    change (obnd (add_all_infos acc (fi_children si)) (fun acc' => info_top [] rest acc') =
+            obnd (add_all_infos acc (fi_children si)) (fun acc' => info_fields_v true rest acc')).
+    destruct (add_all_infos acc (fi_children si)) as [acc'|]; [|reflexivity]. cbn [obnd]. apply IH.
+Qed.
+
+(* every load of a history gives what the same (type, format, document) gives alone, whatever was loaded
+   before it — other types, the same type, failed loads *)
+Lemma conf_history_independent : forall rf h kept,
+  conf_history false rf kept h = map (fun r => load_doc rf (fst (fst r)) (snd (fst r)) (snd r)) h.
+Proof.
+  intros rf h. induction h as [|[[T f] d] rest IH]; intro kept; [reflexivity|].
+  cbn [conf_history map fst snd]. rewrite IH. f_equal.
+  rewrite info_top_nil. unfold load_doc, conf_load, conf_load_info. reflexivity.
+Qed.
